@@ -54,8 +54,13 @@ def op_rg_manual(c):
         os.chdir(d)
         try:
             try:
+                import copy
+                before = copy.deepcopy(a)
                 m.create_sg_from_board(*a)
-                out = {"rc": 0}
+                first = _collect(d).get("text")
+                m.create_sg_from_board(*a)          # same board objects again: same file again
+                out = {"rc": 0, "args_intact": a == before}
+                out["first_same"] = first == _collect(d).get("text")
             except Exception as e:   # noqa: BLE001
                 out = {"rc": 1, "exc": type(e).__name__, "msg": str(e)}
         finally:
